@@ -249,6 +249,7 @@ func (g *gen) smpRelay(w *world) {
 
 func (w *world) sendTLVs(p *party, types []uint16, values [][]byte) (ts []otr3.ValidMessage) {
 	var err error
+	w.sync(p)
 	res := guard(func() string {
 		ts, err = otr3.VerifSendTLVs(p.c, nil, types, values)
 		return fmt.Sprintf("send=%s err=%s", msgsStr(ts), otr3.VerifErrClass(err))
@@ -297,8 +298,9 @@ func (g *gen) deviantPayload(tlvType uint16, value []byte) ([]byte, string) {
 	i := g.r.Intn(len(mpis))
 	one := big.NewInt(1)
 	cands := []*big.Int{big.NewInt(0), one, new(big.Int).Sub(bigP, one), bigP, new(big.Int).Add(bigP, one), bigQ,
-		new(big.Int).Add(mpis[i], one), new(big.Int).Sub(mpis[i], one), new(big.Int).SetBytes(g.bytesN(192)), new(big.Int).Sub(bigP, big.NewInt(2)), big.NewInt(2)}
-	names := []string{"0", "1", "p-1", "p", "p+1", "q", "+1", "-1", "random", "p-2", "2"}
+		new(big.Int).Add(mpis[i], one), new(big.Int).Sub(mpis[i], one), new(big.Int).SetBytes(g.bytesN(192)), new(big.Int).Sub(bigP, big.NewInt(2)), big.NewInt(2),
+		new(big.Int).Add(mpis[i], bigQ), new(big.Int).Add(mpis[i], bigQ), new(big.Int).Add(mpis[i], bigP)}
+	names := []string{"0", "1", "p-1", "p", "p+1", "q", "+1", "-1", "random", "p-2", "2", "+q", "+q", "+p"}
 	k := g.r.Intn(len(cands))
 	v := cands[k]
 	if v.Sign() < 0 {
@@ -383,7 +385,10 @@ func (g *gen) smpDeviant(w *world) {
 	g.dist["smp:deviant:"+strings.SplitN(what, " with ", 2)[1]]++
 	if hasEv(victimEv, "smp:6") {
 		key := "deviant-message-success"
-		if version == 2 && (strings.HasSuffix(what, "=1") || strings.HasSuffix(what, "=p-1") || strings.HasSuffix(what, "=p+1") || strings.HasSuffix(what, "=p")) {
+		if strings.HasSuffix(what, "=+q") {
+			key = "out-of-range-exponent-success"
+		}
+		if version == 2 && (strings.HasSuffix(what, "=1") || strings.HasSuffix(what, "=p-1") || strings.HasSuffix(what, "=p+1") || strings.HasSuffix(what, "=p") || strings.HasSuffix(what, "=+p")) {
 			key = "otrv2-degenerate-group-element"
 		}
 		olog.viol("C12", key, fmt.Sprintf("OTRv%d: the receiver of %s reported success: %v", version, what, victimEv))
